@@ -71,7 +71,10 @@ class ExpressionFunction(Callable, SimpleRepr):
         self._fixed_vars = fixed_vars
         self._source_file = source_file
 
-        has_return, self.exp_vars = _analyse_ast(self._expression)
+        has_return, exp_vars = _analyse_ast(self._expression)
+        # Sorted: the argument order must not depend on set iteration order
+        # (i.e. on the process hash seed).
+        self.exp_vars = sorted(exp_vars)
 
         # Build the function definition code from the expression:
         f_def = f"def f({', '.join([v for v in self.exp_vars])} ):\n"
